@@ -401,13 +401,13 @@ func c25IDList(rng *rand.Rand, maxN int) ([]int, []int64) {
 	n := 1 + rng.IntN(maxN)
 	var l []int
 	var e []int64
-	sharedExp := int64(rng.IntN(7))
+	sharedExp := c25Exp(rng)
 	for i := 0; i < n; i++ {
 		l = append(l, rng.IntN(c25IDs))
 		if rng.IntN(2) == 0 {
 			e = append(e, sharedExp) // many ids sharing an expiry
 		} else {
-			e = append(e, int64(rng.IntN(7)))
+			e = append(e, c25Exp(rng))
 		}
 	}
 	return l, e
@@ -419,7 +419,7 @@ func c25GenEMapOp(rng *rand.Rand) c25Op {
 		l, e := c25IDList(rng, 4)
 		return c25Op{K: "add", IDs: l, Exps: e}
 	case x < 7:
-		return c25Op{K: "setmin", T: int64(rng.IntN(8))}
+		return c25Op{K: "setmin", T: c25Exp(rng) + int64(rng.IntN(2))}
 	case x < 8:
 		l, _ := c25IDList(rng, 3)
 		return c25Op{K: "any", IDs: l}
@@ -449,7 +449,7 @@ func c25Gen(rng *rand.Rand, kind string) c25Case {
 		case "eheap":
 			switch x := rng.IntN(12); {
 			case x < 5:
-				c.Ops = append(c.Ops, c25Op{K: "add", IDs: []int{rng.IntN(c25IDs)}, Exps: []int64{int64(rng.IntN(7))}})
+				c.Ops = append(c.Ops, c25Op{K: "add", IDs: []int{rng.IntN(c25IDs)}, Exps: []int64{c25Exp(rng)}})
 			case x < 8:
 				c.Ops = append(c.Ops, c25Op{K: "remove", IDs: []int{rng.IntN(c25IDs)}})
 			case x < 9:
@@ -457,12 +457,12 @@ func c25Gen(rng *rand.Rand, kind string) c25Case {
 			case x < 10:
 				c.Ops = append(c.Ops, c25Op{K: "pop"})
 			default:
-				c.Ops = append(c.Ops, c25Op{K: "setmin", T: int64(rng.IntN(8))})
+				c.Ops = append(c.Ops, c25Op{K: "setmin", T: c25Exp(rng) + int64(rng.IntN(2))})
 			}
 		default:
 			switch x := rng.IntN(10); {
 			case x < 5:
-				c.Ops = append(c.Ops, c25Op{K: "push", IDs: []int{rng.IntN(c25IDs)}, Exps: []int64{int64(rng.IntN(7))}})
+				c.Ops = append(c.Ops, c25Op{K: "push", IDs: []int{rng.IntN(c25IDs)}, Exps: []int64{c25Exp(rng)}})
 				size++
 			case x < 7:
 				c.Ops = append(c.Ops, c25Op{K: "pop"})
@@ -658,4 +658,12 @@ func TestC25(t *testing.T) {
 		return
 	}
 	r.Finish(5000)
+}
+
+// c25Exp draws an expiry: mostly 0..6, sometimes negative (a non-zero expiry like any other).
+func c25Exp(rng *rand.Rand) int64 {
+	if rng.IntN(5) == 0 {
+		return -int64(1 + rng.IntN(3))
+	}
+	return int64(rng.IntN(7))
 }
